@@ -253,7 +253,7 @@ def verify_fuc(spec, opts):
                     res.errors.append('control signal escaped: %r' % e)
             except z3.Z3Exception as e:
                 if record:
-                    res.errors.append('z3: %s\n%s' % (e, traceback.format_exc(limit=6)))
+                    res.errors.append('z3: %s\n%s' % (e, traceback.format_exc(limit=20)))
             except Exception as e:  # engine bug
                 if record:
                     res.errors.append('engine: %r\n%s' % (e, traceback.format_exc(limit=8)))
@@ -276,7 +276,7 @@ def verify_fuc(spec, opts):
     # references is a genuine counter-model of the verification condition
     open_ = {(ob.name, ob.path) for ob in all_obls if ob.verdict in ('unknown', 'candidate')}
     if open_ and not o.get('finite_refs'):
-        for n in o.get('cex_scopes', (3, 4, 5)):
+        for n in o.get('cex_scopes', (4, 7)):
             if not open_:
                 break
             names = {k[0] for k in open_}
@@ -472,7 +472,7 @@ class CustomCheck:
         try:
             self.fn(res, opts)
         except Exception as e:
-            res.errors.append('custom check: %r\n%s' % (e, traceback.format_exc(limit=6)))
+            res.errors.append('custom check: %r\n%s' % (e, traceback.format_exc(limit=20)))
         res.secs = time.time() - t0
         return res
 
